@@ -313,6 +313,19 @@ let do_zr line =
       (match K.zinv src (ns c1) with None -> "I:err" | Some d -> "I:" ^ dec_of d)
   | _ -> "badcase"
 
+(* ---- FPAQ (C12):  fp <hex data> ; <hex stream or -> ---- *)
+let do_fp line =
+  match split_on_semis line with
+  | ["fp"; data] :: [stream] :: _ ->
+    let data = if data = "-" then [] else bytes_of_hex data in
+    let e = match K.fpaq_encode data with None -> "E:P" | Some out -> "E:" ^ (if out = [] then "-" else hex_of_bytes out) in
+    if stream = "-" then e else
+    (match K.fpaq_decode (n_of_zar (Z.of_int (List.length data))) (bytes_of_hex stream @ bytes_of_hex "a5c3f00f") with
+     | K.DOk (b, rest) -> e ^ " D:" ^ (if b = [] then "-" else hex_of_bytes b) ^ " R:" ^ hex_of_bytes rest
+     | K.DInvalid -> e ^ " D:invalid"
+     | K.DEos -> e ^ " D:eos")
+  | _ -> "badcase"
+
 let dispatch line =
   match words line with
   | [] -> ""
@@ -326,6 +339,7 @@ let dispatch line =
   | "bc" :: _ -> do_bc line
   | "hd" :: _ -> do_hd line
   | "zr" :: _ -> do_zr line
+  | "fp" :: _ -> do_fp line
   | k :: _ -> "unknown " ^ k
 
 let () =
